@@ -227,6 +227,21 @@ class RecSeqV:
         return 'RecSeqV<%d>' % len(self.cols)
 
 
+class RangeSeq(RecSeqV):
+    """range(lo, hi) with symbolic bounds, as a sequence: element i is lo + i"""
+
+    def __init__(self, lo, hi):
+        RecSeqV.__init__(self, [], kind='range')
+        self.lo, self.hi = lo, hi
+
+    @property
+    def length(self):
+        return If(self.hi > self.lo, self.hi - self.lo, IntVal(0))
+
+    def elem(self, i):
+        return self.lo + i
+
+
 class Tup:
     """Fixed-length heterogeneous tuple (or list when kind == 'list')."""
 
@@ -1451,8 +1466,10 @@ class Executor:
             cargs = [concrete(a) for a in args]
             if all(a is not None for a in cargs):
                 seq = Tup(list(range(*cargs)))
+            elif len(args) in (1, 2):
+                seq = RangeSeq(IntVal(0) if len(args) == 1 else toint(args[0]), toint(args[-1]))
             else:
-                raise Unsupported('symbolic range()')
+                raise Unsupported('symbolic range() with a step')
         else:
             seq = self.ev(it)
         if isinstance(seq, Obj) and '__iter__' in seq.methods:
@@ -2194,7 +2211,26 @@ class Executor:
         return e
 
     def ev_Lambda(self, n):
-        raise Unsupported('lambda')
+        if n.args.vararg or n.args.kwarg or n.args.kwonlyargs or n.args.defaults:
+            raise Unsupported('lambda with defaults / star arguments')
+        names = [a.arg for a in n.args.args]
+        outer = self
+
+        def fn(ex, *args):
+            if len(args) != len(names):
+                raise _Raise(ExcV('TypeError'))
+            saved = {k: ex.env.get(k, _MISSING) for k in names}
+            try:
+                for k, v in zip(names, args):
+                    ex.env[k] = v
+                return ex.ev(n.body)
+            finally:
+                for k, v in saved.items():
+                    if v is _MISSING:
+                        ex.env.pop(k, None)
+                    else:
+                        ex.env[k] = v
+        return FnV(fn, 'lambda')
 
     def ev_ListComp(self, n):
         if len(n.generators) != 1:
@@ -2398,6 +2434,12 @@ def _minmax(which):
     return f
 
 
+def _map(ex, f, seq):
+    if not isinstance(seq, Tup):
+        raise Unsupported('map over %r' % (seq,))
+    return Tup([ex.call(f, [i], {}) for i in seq.items], 'list')
+
+
 def _abs(ex, v):
     if isinstance(v, int):
         return abs(v)
@@ -2571,6 +2613,7 @@ def _dict_ctor(ex, d=None, **kw):
 
 BUILTINS = {
     'len': FnV(_len, 'len'), 'min': FnV(_minmax('min'), 'min'), 'max': FnV(_minmax('max'), 'max'),
+    'map': FnV(lambda ex, f, seq: _map(ex, f, seq), 'map'),
     'abs': FnV(_abs, 'abs'), 'int': FnV(_int, 'int'), 'float': FnV(_float, 'float'), 'bool': FnV(_bool, 'bool'), 'ord': FnV(_ord, 'ord'),
     'isinstance': FnV(_isinstance, 'isinstance'), 'tuple': FnV(_tuple, 'tuple'), 'list': FnV(_list, 'list'),
     'bytes': FnV(_bytes, 'bytes'), 'hasattr': FnV(_hasattr, 'hasattr'), 'enumerate': FnV(_enumerate, 'enumerate'),
@@ -2595,14 +2638,68 @@ def _seq_join(ex, s, parts):
     raise Unsupported('join of symbolic list')
 
 
-SEQ_METHODS = {'join': _seq_join}
+def _seq_ljust(ex, sq, width, fill):
+    """bytes.ljust(width, b'\\x00'): padded on the right with zero octets up to `width` (unchanged if already longer)"""
+    fz = fill.z if isinstance(fill, SeqV) else None
+    if fz is None or not (z3.is_app(z3.simplify(Length(fz))) and concrete(z3.simplify(Length(fz))) == 1) or \
+            concrete(z3.simplify(fz[0])) != 0:
+        raise Unsupported('ljust with a fill other than one zero octet')
+    from spec.smt import zeros
+    w = toint(width)
+    k = If(w > Length(sq.z), w - Length(sq.z), IntVal(0))
+    ex.assume(Length(zeros(k)) == k)
+    z = Concat(sq.z, zeros(k))
+    return SeqV(z, sq.kind)
+
+
+SEQ_METHODS = {'join': _seq_join, 'ljust': _seq_ljust}
+
+
+# order of python bytes objects (lexicographic): abstract total preorder, instantiated for the keys that are compared
+SEQ_LE = z3.Function('bytes_le', S, S, BoolSort())
+
+
+def _list_sort(ex, lst, key=None, reverse=False):
+    """list.sort(key=...): A-BUILTIN -- the result is the stable arrangement of the items with non-decreasing keys
+    (keys compared as python bytes: a total order, axiomatised for the keys at hand).  Lists of up to 4 items."""
+    items = list(lst.items)
+    n = len(items)
+    if n > 4:
+        raise Unsupported('sort of more than 4 items')
+    keys = [ex.call(key, [it], {}) if key is not None else it for it in items]
+    if not all(isinstance(k, SeqV) for k in keys):
+        raise Unsupported('sort keys that are not byte strings')
+    kz = [k.z for k in keys]
+    for a in kz:
+        for b in kz:
+            ex.assume(Or(SEQ_LE(a, b), SEQ_LE(b, a)))
+            ex.assume(z3.Implies(And(SEQ_LE(a, b), SEQ_LE(b, a)), a == b))
+            for c in kz:
+                ex.assume(z3.Implies(And(SEQ_LE(a, b), SEQ_LE(b, c)), SEQ_LE(a, c)))
+    import itertools
+    rev = concrete(reverse) if not isinstance(reverse, bool) else reverse
+    if rev is None:
+        raise Unsupported('symbolic reverse flag')
+    for perm in itertools.permutations(range(n)):
+        conds = []
+        for i, j in zip(perm, perm[1:]):
+            le = SEQ_LE(kz[j], kz[i]) if rev else SEQ_LE(kz[i], kz[j])
+            strictly = Not(SEQ_LE(kz[i], kz[j])) if rev else Not(SEQ_LE(kz[j], kz[i]))
+            # stable: equal keys keep their original order
+            conds.append(And(le, Or(strictly, BoolVal(i < j))))
+        if ex.choose(And(*conds) if conds else BoolVal(True), 'sorted-as-%s' % (perm,)):
+            lst.items[:] = [items[i] for i in perm]
+            return None
+    raise _PathEnd()
+
+
 
 
 def _list_append(ex, lst, v):
     lst.items.append(v)
 
 
-LIST_METHODS = {'append': _list_append}
+LIST_METHODS = {'append': _list_append, 'sort': _list_sort}
 
 
 def _dict_get(ex, d, key, default=None):
